@@ -1,6 +1,7 @@
 package main
 
 import (
+	"go/ast"
 	"golang.org/x/tools/go/ssa"
 )
 
@@ -14,6 +15,12 @@ func checkInfoRestoresPosition(p *Program, r *Result, rule string) {
 		r.undecided(rule, "mcap.Reader.Info", "anchor", "", "not found")
 		return
 	}
+	checkRestoresPosition(p, r, rule, fn, 2)
+}
+
+// checkRestoresPosition judges fn; a call of an unexported Reader method that itself saves and restores the position
+// around everything in it that seeks (judged the same way, depth levels down) leaves the stream where it was.
+func checkRestoresPosition(p *Program, r *Result, rule string, fn *ssa.Function, depth int) {
 	// functions that (transitively) seek the shared stream
 	seeks := map[*ssa.Function]bool{}
 	fns := p.repoFunctions(pkgMcap)
@@ -44,6 +51,24 @@ func checkInfoRestoresPosition(p *Program, r *Result, rule string) {
 		g := ci.Common().StaticCallee()
 		return g != nil && seeks[g]
 	}) {
+		if g := ci.Common().StaticCallee(); g != nil && depth > 0 && g.Signature.Recv() != nil && !ast.IsExported(g.Name()) && g.Blocks != nil {
+			sub := newResult(r.Prop, "sub")
+			checkRestoresPosition(p, sub, rule, g, depth-1)
+			good, bad := 0, 0
+			for _, o := range sub.Obls {
+				switch o.Status {
+				case Held:
+					good++
+				case Violated, Undecided:
+					bad++
+				}
+			}
+			if good > 0 && bad == 0 {
+				n++
+				r.held(rule, funcName(fn), "stream position around "+calleeRepoName(ci), p.pos(ci.Pos()), "the callee saves the position before and restores it on every path after what it reads")
+				continue
+			}
+		}
 		n++
 		construct := "stream position around " + calleeRepoName(ci)
 		// a saved position that dominates the call
